@@ -258,14 +258,19 @@ def rule_3(ctx):
     pf = func_params(fa)
     for text, sheet, want in (('A1', 'Ctx', 'Ctx!A1'), ('$B$2', 'Ctx', 'Ctx!B2'), ('Other!C3', 'Ctx', 'Other!C3'),
                               ('Other!$C$3', 'Ctx', 'Other!C3'), ('A1:B2', 'My Sheet', 'My Sheet!A1:B2')):
-        it = Interp(ctx.a, am, {pf[0]: Rec(address=text, tvalue=text), pf[1]: Rec(sheet=sheet, refsheet='Ref')},
+        from . import corelemma
+        mk = Interp(ctx.a, am, {}, inline_pkg=True)
+        node = corelemma.build_node(mk, 'RangeNode', Rec(cls='pkg:tokenizer:f_token', tvalue=text, ttype='operand', tsubtype='range'))
+        it = Interp(ctx.a, am, {pf[0]: node, pf[1]: Rec(cls='pkg:ast_nodes:EvalContext', sheet=sheet, refsheet='Ref', ref='Ref!A1')},
                     inline_pkg=True, scope_fn=fa, self_class='pkg:ast_nodes:RangeNode')
         out = it.run(fa.body)
         got = out.value if out.end == 'return' else f'<{out.end}>'
         ctx.expect(got == want, fa, f'full_address({text!r}) in a context on sheet {sheet!r}',
                    f'the reference {text!r} evaluated in a cell of sheet {sheet!r} is looked up as {got!r}, expected {want!r} '
                    '(unqualified references take the sheet of the evaluating context, qualified ones keep theirs, $ is dropped)')
-    ctx.floor(10, 'evaluate call sites + context construction chain + address witnesses')
+    from . import corelemma
+    corelemma.rule_address_per_evaluation(ctx)
+    ctx.floor(11, 'evaluate call sites + context construction chain + address witnesses')
     if n_sites < 1:
         ctx.errors.append('C03.3: no nested evaluate() call site found')
 
